@@ -759,6 +759,10 @@ func foldRule(c *core.Ctx) {
 		return
 	}
 	an := c.Analyze(fn)
+	if len(an.Problems) == 0 && len(an.Headers) == 0 {
+		// the traversal lives in a helper (an iterator the fold ranges over): followed together with its loop
+		an = c.AnalyzeLoops(fn)
+	}
 	if len(an.Problems) > 0 || len(an.Headers) != 1 {
 		c.Undecided("fold", name, fn.Pos(), "expected one loop")
 		return
